@@ -342,7 +342,8 @@ def materialise(model: dict) -> T.Dict[str, str]:
                 o = by_id[cid]['outputs'][idx]
                 calls.append('gen_' + _sym(o.rsplit('.', 1)[0]))
             for cid in t['cfg_headers']:
-                body0.append(f'#include "{by_id[cid]["name"]}"\n#ifndef CONF_{cid}\n#error configure_file header not seen\n#endif')
+                body0.append(f'#ifndef CONF_{cid}\n#error configure_file header not seen\n#endif')
+                incl.append(f"{cid}.full_path()")
             if t['generator']:
                 files[os.path.join(d, f'gin_{v}.txt')] = f'generator input {v}\n'
                 calls.append(f'gen_gin_{v}')
